@@ -13,7 +13,7 @@ PARTIAL = [
     "entry points: list = map of single, grid size / ordering / corners (curve, surface, volume) and the zeroth derivative of curves are Lean theorems about the model functions (curveGrid, surfaceGrid, volumeGrid, curveDers); the zeroth derivative of surfaces follows coordinatewise from C02 (k = l = 0); the object layer's dispatch to these functions is tied by correspondence + exact oracle only",
     "evaluation with find_span_binsearch SELECTED is now an end-to-end theorem (C17 curve_eval_binsearch_selected, rational_curve_eval_binsearch_selected, surface_eval_binsearch_selected, volume_eval_binsearch_selected, curve_derivatives_binsearch_selected; binsearch_span_found): on the closed domain of a knot vector with non-empty last span the point computed on the span the binary search returns is the Cox-de Boor (tensor) sum (cdbSpan of that span; cdb below the domain end), under BinTolOk = tolerance in (0, 1/2) and the F-17b separation hypothesis per direction (holds for every parameter when the last span is longer than the tolerance); without it the evaluated point differs (curve_eval_binsearch_refuted_F17b) - supersedes the last clause of the first item; rational surfaces / volumes with the binary search: only through binsearch_selected_any_span_function (span equality), no separate quotient statement",
 ]
-PARTIAL.append("knot vectors with an empty last domain span (F-01b, repaired): evaluate_single is now covered by theorems about the evaluation through the literal model of the REPAIRED search (curvePointR / surfacePointR / volumePointR = span found by findSpanLinearR, Model/SpanR.lean): curve_eval_repaired_closed, rational_curve_eval_repaired_closed, surface_ / volume_eval_repaired_closed, rational_surface_ / rational_volume_eval_repaired_closed (every sorted knot vector with U_p < U_n per direction, whole closed domain: the span found is legal, non-empty, contains the parameter; point = Cox-de Boor (tensor) sum with the recursion of that span, cdb itself below the domain end, the LAST NON-EMPTY span at U_n; rational quotient with positive weight), eval_repaired_eq_eval (= curvePoint / surfacePoint / volumePoint under KnotsOk), witness curve_eval_repaired_witness_F01b; correspondence at u = U_n too (stream empty-last-span: kind end-left-limit now has a model line cevalr / sevalr / vevalr besides the oracle; ordinary shapes: kind singler). NOT lifted to the repaired search: evaluate_list / sampled grids / derivatives (curveGrid, surfaceGrid, volumeGrid, curveDers use findSpanLinear; their ops and ceval / seval / veval answer ERR when the span found is empty) - at U_n of such a knot vector evaluate_list, first derivatives and the grid are checked by the exact oracle only (left-limit values); span_found_nonempty_of_knotsOk / span_found_empty_without_knotsOk remain as the statements about the search without step back")
+PARTIAL.append("knot vectors with an empty last domain span (F-01b, repaired): evaluate_single is now covered by theorems about the evaluation through the literal model of the REPAIRED search (curvePointR / surfacePointR / volumePointR = span found by findSpanLinearR, Model/SpanR.lean): curve_eval_repaired_closed, rational_curve_eval_repaired_closed, surface_ / volume_eval_repaired_closed, rational_surface_ / rational_volume_eval_repaired_closed (every sorted knot vector with U_p < U_n per direction, whole closed domain: the span found is legal, non-empty, contains the parameter; point = Cox-de Boor (tensor) sum with the recursion of that span, cdb itself below the domain end, the LAST NON-EMPTY span at U_n; rational quotient with positive weight), eval_repaired_eq_eval (= curvePoint / surfacePoint / volumePoint under KnotsOk), witness curve_eval_repaired_witness_F01b; correspondence at u = U_n too (stream empty-last-span: kind end-left-limit now has a model line cevalr / sevalr / vevalr besides the oracle; ordinary shapes: kind singler). LIFTED to the repaired search too (Model/SpanRGrid.lean: curveGridR / surfaceGridR / volumeGridR / curveDersR = the models of evaluate_list, the sampled grids and derivatives with findSpanLinear replaced by findSpanLinearR, per-span functions unchanged): curve_list_repaired_eq_single, surface_grid_repaired_index, volume_grid_repaired_index (size, ordering, entry = R point evaluation at its parameters), curve_ / surface_ / volume_grid_repaired_entry_eq_definition and rational_curve_ / rational_surface_ / rational_volume_grid_repaired_entry_eq_quotient (EVERY sorted knot vector with U_p < U_n per direction, parameters in the closed domain: entry = Cox-de Boor (tensor) sum / quotient with the recursion of the non-empty span the repaired search finds; cdb itself below the domain end), grid_repaired_corners (linspace lists: first / last grid point = R evaluation at the start / end corner, curves, surfaces, volumes), curve_grid_repaired_ends_on_left_limit, surface_grid_repaired_ends_on_left_limit (last grid point = sum with the recursion of the LAST NON-EMPTY span(s) at U_n, first = Cox-de Boor sum at U_p), grid_repaired_eq_grid + sampled_params_in_domain (= curveGrid / surfaceGrid / volumeGrid under KnotsOk for parameter lists in the closed domain), curve_ders0_repaired_eq_single, kernel-decided witness grid_repaired_witness_F01b; correspondence AT U_n (stream empty-last-span): kinds end-grid-r (cgridr / sgridr / vgridr: the whole evalpts), clistr (curves: the whole evaluate_list through curveGridR) / end-list-r (surfaces, volumes: entry of evaluate_list against sevalr / vevalr), end-ders-r (derivatives of order 0..2 against cdersr / sdersr), each with a model line AND the exact oracle (left-limit values); ordinary shapes: kinds gridr, clistr. Still partial: no separate ends-on-left-limit theorem for volumes (it is grid_repaired_corners composed with volume_eval_repaired_closed and C03.findSpanLinearR_spec); the grid theorems take the linspace parameter lists (linspaceCore) as given - the tolerance branch of linalg.linspace and the sample-size rounding (F-01) stay on the correspondence / oracle side; evaluate_list of surfaces / volumes has no list model of its own (entry-wise comparison, as for the ops without step back); the ops of the search WITHOUT step back (ceval, cgrid, cders, ...) still answer ERR when the span they find is empty, and span_found_nonempty_of_knotsOk / span_found_empty_without_knotsOk remain as the statements about that search")
 ASSUMPTIONS = ["parameters at the domain end are evaluated on the last non-empty span (left limit), as the library does"]
 
 
@@ -31,6 +31,9 @@ OPS = {'curve': 'ceval', 'surface': 'seval', 'volume': 'veval'}
 # Model/SpanR.lean curvePointR / surfacePointR / volumePointR) - no empty-span guard in the driver
 OPSR = {'curve': 'cevalr', 'surface': 'sevalr', 'volume': 'vevalr'}
 GRID = {'curve': 'cgrid', 'surface': 'sgrid', 'volume': 'vgrid'}
+# sampled grids / evaluate_list / derivatives through the REPAIRED model search (curveGridR / surfaceGridR / volumeGridR /
+# curveDersR / surfaceDersR, Model/SpanRGrid.lean): ops without the lastSpanEmpty / emptySpanAt guards
+GRIDR = {'curve': 'cgridr', 'surface': 'sgridr', 'volume': 'vgridr'}
 
 
 def gen(rng, tier):
@@ -52,6 +55,10 @@ def gen(rng, tier):
             j = rng.randint(0, len(extra))
             data['plist'] = extra[:j] + [ps] + extra[j:]
             data['j'] = j
+            if d['kind'] == 'curve':
+                # the whole list through the model of evaluate_list with the REPAIRED search (curveGridR, op clistr)
+                out.append(Case('clistr', "clistr %s %s" % (S.args(d), show_list([x[0] for x in data['plist']])),
+                                dict(shape=d, plist=data['plist']), tags=('ordinary-r',)))
         out.append(Case(k, line, data))
     turn = {}
     for it_ in range(25 if tier == 'quick' else 300):
@@ -118,6 +125,10 @@ def gen(rng, tier):
             if first[k] < 2 or (S.dirs(d)[k][1][S.dirs(d)[k][2]] - S.dirs(d)[k][1][S.dirs(d)[k][0]]) / first[k] >= 1:
                 first = None
         out.append(Case('grid', line, dict(shape=d, sizes=sizes, first=first)))
+        if len(out) % 3 == 0:
+            # the R grid of the model on ORDINARY shapes: it must agree with evalpts everywhere
+            out.append(Case('gridr', "%s %s %s" % (GRIDR[d['kind']], S.args(d), " ".join(fr(x) for x in deltas)),
+                            dict(shape=d, sizes=sizes, first=first), tags=('ordinary-r',)))
     # interior knots of FULL multiplicity (p + 1: the shape may jump there; the value at the knot is the
     # right-hand one, only the domain end takes the left limit) with samples landing exactly on them
     for _ in range(14 if tier == 'quick' else 150):
@@ -145,6 +156,8 @@ def gen(rng, tier):
         deltas = [F(1, sz) for sz in sizes]
         line = "%s %s %s" % (GRID[d['kind']], S.args(d), " ".join(fr(x_) for x_ in deltas))
         out.append(Case('grid', line, dict(shape=d, sizes=sizes, first=None), tags=('full-multiplicity',)))
+        out.append(Case('gridr', "%s %s %s" % (GRIDR[d['kind']], S.args(d), " ".join(fr(x_) for x_ in deltas)),
+                        dict(shape=d, sizes=sizes, first=None), tags=('full-multiplicity', 'ordinary-r')))
         ps = [x] + [rng.choice([F(0), F(1, 3), F(1)]) for _ in S.dirs(d)[1:]]
         out.append(Case('single', "%s %s %s" % (OPS[d['kind']], S.args(d), " ".join(fr(x_) for x_ in ps)), dict(shape=d, params=ps),
                         tags=('full-multiplicity',)))
@@ -179,6 +192,32 @@ def gen(rng, tier):
         sizes = [rng.randint(2, 5) for _ in ds]
         out.append(Case('end-left-limit', "%s %s %s" % (OPSR[d['kind']], S.args(d), " ".join(fr(x) for x in pe)),
                         dict(shape=d, params=pe, dir=k, sizes=sizes), tags=('empty-last-span', 'at-end')))
+        # (3) the other entry points AT the domain end, each with a model line through the R models of Model/SpanRGrid.lean
+        # (the ops of the unrepaired model search answer ERR there) + the exact oracle (left-limit values):
+        # (3a) the sampled grid (its last row / column / layer in direction k lies on U_n): cgridr / sgridr / vgridr
+        deltas = [(kv_[n2] - kv_[p2]) / sz for (p2, kv_, n2), sz in zip(ds, sizes)]
+        if all(0 < dl < 1 for dl in deltas):
+            out.append(Case('end-grid-r', "%s %s %s" % (GRIDR[d['kind']], S.args(d), " ".join(fr(x) for x in deltas)),
+                            dict(shape=d, sizes=sizes, first=None), tags=('empty-last-span', 'at-end')))
+        # (3b) evaluate_list with the end parameter among others: curves - the whole list (curveGridR, op clistr);
+        # surfaces / volumes - entry j of the list against the R point evaluation
+        extra = [S.rand_params(rng, d) for _ in range(rng.randint(0, 2))]
+        j = rng.randint(0, len(extra))
+        plist = extra[:j] + [pe] + extra[j:]
+        if d['kind'] == 'curve':
+            out.append(Case('clistr', "clistr %s %s" % (S.args(d), show_list([x[0] for x in plist])),
+                            dict(shape=d, plist=plist), tags=('empty-last-span', 'at-end')))
+        else:
+            out.append(Case('end-list-r', "%s %s %s" % (OPSR[d['kind']], S.args(d), " ".join(fr(x) for x in pe)),
+                            dict(shape=d, params=pe, plist=plist, j=j), tags=('empty-last-span', 'at-end')))
+        # (3c) derivatives (order 0..2, default evaluator) on the span the repaired search finds: curveDersR / surfaceDersR
+        if d['kind'] != 'volume':
+            order = rng.randint(0, 2)
+            if d['kind'] == 'curve':
+                ln = "cdersr %s %s %d" % (S.args(d), fr(pe[0]), order)
+            else:
+                ln = "sdersr %s 0 %s %s %s %d" % ('1' if d['rat'] else '0', S.args(d)[2:], fr(pe[0]), fr(pe[1]), order)
+            out.append(Case('end-ders-r', ln, dict(shape=d, params=pe, order=order), tags=('empty-last-span', 'at-end')))
     # floating point: the requested sample size is honoured for every n (rounding of 1/delta)
     out.append(Case('float-sizes', None, dict(lo=2, hi=130 if tier == 'quick' else 400)))
     return out
@@ -311,9 +350,19 @@ def impl(c):
         pl = [[q(x) for x in ps] for ps in c.data['plist']]
         arg = [p[0] for p in pl] if d['kind'] == 'curve' else [tuple(p) for p in pl]
         return show_list(o.evaluate_list(arg)[c.data['j']])
-    if c.kind == 'grid':
+    if c.kind in ('grid', 'gridr', 'end-grid-r'):
         _set_sizes(o, d, c.data['sizes'], c.data.get('first'))
         return show_pts(o.evalpts)
+    if c.kind == 'clistr':
+        return show_pts(o.evaluate_list([q(ps[0]) for ps in c.data['plist']]))
+    if c.kind == 'end-list-r':
+        return show_list(o.evaluate_list([tuple(q(x) for x in ps) for ps in c.data['plist']])[c.data['j']])
+    if c.kind == 'end-ders-r':
+        qp = [q(x) for x in c.data['params']]
+        if d['kind'] == 'curve':
+            return show_pts(o.derivatives(qp[0], c.data['order']))
+        from core import show_pts2
+        return show_pts2(o.derivatives(qp[0], qp[1], c.data['order']))
     raise ValueError(c.kind)
 
 
@@ -322,6 +371,37 @@ def oracle(c):
         return _oracle_end_left_limit(c)
     d = c.data.get('shape')
     o = S.build(d) if d else None
+    if c.kind in ('clistr', 'end-list-r'):
+        # every entry of evaluate_list is the definition's value (left limit at the domain end)
+        pl = c.data['plist']
+        got = o.evaluate_list([q(ps[0]) for ps in pl] if d['kind'] == 'curve' else [tuple(q(x) for x in ps) for ps in pl])
+        if len(got) != len(pl):
+            return "evaluate_list returns %d points for %d parameters" % (len(got), len(pl))
+        for ps, g in zip(pl, got):
+            want = S.eval_ref(d, ps)
+            if list(g) != want:
+                return "evaluate_list at %s gives %s, the definition (left limit at the domain end) gives %s" % (
+                    tuple(map(fr, ps)), show_list(g), show_list(want))
+        return None
+    if c.kind == 'end-ders-r':
+        import jets as J
+        ps, order = c.data['params'], c.data['order']
+        qp = [q(x) for x in ps]
+        if d['kind'] == 'curve':
+            got = [list(x) for x in o.derivatives(qp[0], order)]
+            ref = J.curve_ders(d, ps[0], order)
+            if got != ref:
+                return "derivatives(%s, %d) at the end of a domain with an empty last span is %s, the last non-empty span's polynomial gives %s" % (
+                    fr(ps[0]), order, show_pts(got), show_pts(ref))
+            return None
+        got = o.derivatives(qp[0], qp[1], order)
+        ref = J.surface_ders(d, ps[0], ps[1], order)
+        for a in range(order + 1):
+            for b in range(order + 1):
+                if list(got[a][b]) != ref[a][b]:
+                    return "derivatives(order=%d)[%d][%d] at %s is %s, the polynomial of the last non-empty span(s) gives %s" % (
+                        order, a, b, tuple(map(fr, ps)), show_list(got[a][b]), show_list(ref[a][b]))
+        return None
     if c.kind in ('single', 'list', 'ders0', 'singler'):
         ps = c.data['params']
         want = S.eval_ref(d, ps)
@@ -348,7 +428,7 @@ def oracle(c):
         if bad:
             return "floating point: sample size %d yields %d evaluated points (curve, or surface with 3 in the other direction), first of %d such sizes" % (bad[0][0], bad[0][1], len(bad))
         return None
-    if c.kind == 'grid':
+    if c.kind in ('grid', 'gridr', 'end-grid-r'):
         import itertools
         sizes = c.data['sizes']
         _set_sizes(o, d, sizes, c.data.get('first'))
@@ -381,7 +461,7 @@ def oracle(c):
 
 
 def classify(c, why):
-    if c.kind == 'grid' and why.startswith('sampled grid has') and 'not the count' not in why:
+    if c.kind in ('grid', 'gridr', 'end-grid-r') and why.startswith('sampled grid has') and 'not the count' not in why:
         d = c.data['shape']
         if any(not S.unit_range(kv) for (_, kv, _) in S.dirs(d)):
             return 'F-01'
